@@ -137,10 +137,11 @@ example :
 
 /-- `:not(div.foo)` on `<div>`: the model VM (like the implementation) reports no match because the
     compound argument is flattened to `!div && !.foo`; CSS semantics (`:not()` negates its whole
-    argument) matches. -/
+    argument) matches — with the CSS leaves and with the leaves as coded alike. -/
 theorem C04_not_compound_counterexample :
     runSelectors [selNotDivFoo] false docDiv = .ok [] ∧
-    Spec.Css.run [selNotDivFoo] false docDiv = [(0, 0)] := by decide
+    Spec.Css.run cssLeaf [selNotDivFoo] false docDiv = [(0, 0)] ∧
+    Spec.Css.run codeLeaf [selNotDivFoo] false docDiv = [(0, 0)] := by decide
 
 /-- The flattening itself. -/
 example : Predicate.ofCompound [.not [[.type bDiv, .cls bFoo]]] =
